@@ -591,10 +591,11 @@ func (m *machine) settle(t *rapid.T, want []string, clause, shape, after string)
 
 // budget: state that no later message can observe is not worth creating; once the message budget
 // is used the remaining steps of the history are spent in idle.
-func (m *machine) budget(t *rapid.T) {
-	if m.msgs >= m.maxMsgs {
-		t.Skip("message budget used")
-	}
+// (The step then does nothing instead of being skipped: with the idle action as the only one that is not
+// skipped, rapid's 100 attempts to draw a valid action fail about once in a million steps - in the thorough
+// tier that ended a shard with "can't find a valid (non-skipped) action".)
+func (m *machine) budget(t *rapid.T) bool {
+	return m.msgs >= m.maxMsgs
 }
 
 func (m *machine) idle(t *rapid.T) {
@@ -636,7 +637,9 @@ func (m *machine) localServersOf(ft model.FeatureTypeType) []api.FeatureLocalInt
 
 // peerCall: a client feature of the peer subscribes or binds to a local server feature.
 func (m *machine) peerCall(t *rapid.T, bind bool) {
-	m.budget(t)
+	if m.budget(t) {
+		return
+	}
 	pi := rapid.IntRange(0, len(m.w.Peers)-1).Draw(t, "peer")
 	cands := m.featuresOf(pi, func(f featSpec) bool { return f.Role != model.RoleTypeServer })
 	if len(cands) == 0 {
@@ -665,7 +668,9 @@ func (m *machine) peerBind(t *rapid.T)      { m.peerCall(t, true) }
 // localClient: a local client feature subscribes / binds to a server feature of the peer, which
 // the stack remembers per remote feature address.
 func (m *machine) localClient(t *rapid.T) {
-	m.budget(t)
+	if m.budget(t) {
+		return
+	}
 	pi := rapid.IntRange(0, len(m.w.Peers)-1).Draw(t, "peer")
 	cands := m.featuresOf(pi, func(f featSpec) bool { return f.Role != model.RoleTypeClient })
 	if len(cands) == 0 {
@@ -860,7 +865,9 @@ func (m *machine) drawAnnounced(t *rapid.T, pi int, reply bool) ([]entry, delta)
 }
 
 func (m *machine) message(t *rapid.T) {
-	m.budget(t)
+	if m.budget(t) {
+		return
+	}
 	pi := rapid.IntRange(0, len(m.w.Peers)-1).Draw(t, "peer")
 	p := m.w.Peers[pi]
 	kind := "partial"
@@ -1071,7 +1078,9 @@ func (m *machine) announce(t *rapid.T, pi int, ents []entSpec) {
 // reconnect: the connection of a peer goes and the device connects again; what the stack knows
 // about it starts from scratch with the new initial reply.
 func (m *machine) reconnect(t *rapid.T) {
-	m.budget(t)
+	if m.budget(t) {
+		return
+	}
 	pi := rapid.IntRange(0, len(m.w.Peers)-1).Draw(t, "peer")
 	old := m.w.Peers[pi]
 	m.w.Local.RemoveRemoteDeviceConnection(old.Ski)
